@@ -407,4 +407,4 @@ pub fn run(rep: &Report) {
     rep.floor("layouts", rep.evals(), 1500);
 }
 
-pub const RULE: &str = "random sequences of SET/DB/DW definitions of all four kinds (scalar, zero array, filled array, string) with sizes 0..40000, full-range values, segments placing data across the 1 MiB wrap, several SETs (incl. returning to segment 0), labels on definitions, in plain and random spelling; every label is used as operand and through OFFSET. Oracle: independently computed image (2^20 zero bytes + writes) compared with VM.mem in full after the driver's loading sequence (in process and, for a sample, against the hook's memory dump of the real binary), label offsets, OFFSET constants and values loaded through label operands with DS=0; definitions of exactly / almost 64 KiB laid over earlier non-zero data of a physically overlapping segment; layouts steered to 65536 +- 2 bytes per segment must be diagnosed when they exceed 64 KiB. Distinct = (number of definitions, SETs, overflow, size class). Layouts of 1240 / 70280 / 70700 data directives over up to 700 segments, in process and through the binary.";
+pub const RULE: &str = "random sequences of SET/DB/DW definitions of all four kinds (scalar, zero array, filled array, string) with sizes 0..40000, full-range values, segments placing data across the 1 MiB wrap, several SETs (incl. returning to segment 0), labels on definitions, in plain and random spelling; every label is used as operand and through OFFSET. Oracle: independently computed image (2^20 zero bytes + writes) compared with VM.mem in full after the driver's loading sequence (in process and, for a sample, against the hook's memory dump of the real binary), label offsets, OFFSET constants and values loaded through label operands with DS=0; definitions of exactly / almost 64 KiB laid over earlier non-zero data of a physically overlapping segment; layouts steered to 65536 +- 2 bytes per segment must be diagnosed when they exceed 64 KiB. Distinct = (number of definitions, SETs, overflow, size class). Layouts of 1240 / 70280 / 70700 data directives over up to 700 segments, in process and through the binary. Continued contexts: 3-7 data texts parsed one after another on the same context/output, large ones refused for size; labels and the loader's image must be those of the accepted definitions.";
